@@ -83,7 +83,7 @@ def gen_case(rng, car):
         A, M, N = gen_ttm(rng, cplx)
         rows, cols = [], []
         for m, n in zip(M, N):
-            if rng.random() < 0.08:
+            if rng.random() < 0.15:
                 rows.append(("n",)); cols.append(("n",))
             if rng.random() < 0.4:
                 rows.append(("i", rand_int(rng, m))); cols.append(("i", rand_int(rng, n)))
@@ -92,7 +92,13 @@ def gen_case(rng, car):
                     a, b = rand_slice(rng, m), rand_slice(rng, n)
                     if slice_len(m, a) > 0 and slice_len(n, b) > 0: break
                 rows.append(a); cols.append(b)
-        return Get(A, rows + cols), "ttm", None
+        kinds_ = [it[0] for it in rows]
+        cat_ = "ttm"
+        if "n" in kinds_:       # a None pair, and what follows it (the position counters of cores and of index pairs then differ)
+            after = kinds_[kinds_.index("n") + 1:]
+            cat_ = "ttm-none-then-" + ("slice" if "s" in after else ("int" if "i" in after else "nothing"))
+        elif "i" in kinds_ and "s" in kinds_: cat_ = "ttm-int-and-slice"
+        return Get(A, rows + cols), cat_, None
     x, N = gen_tt(rng, cplx)                       # apply_mask
     M_ = rng.choice([1, 2, 3, 6])
     neg = rng.random() < 0.4                        # negative entries count from the end, as in x[index] and in the dense array
